@@ -182,3 +182,7 @@ Section MapDefaults.
        rs_types := map map_type (rs_types r); rs_directives := map map_directive (rs_directives r) |}.
 End MapDefaults.
 Arguments map_defaults {D1 D2}.
+Arguments map_input {D1 D2}.
+Arguments map_field {D1 D2}.
+Arguments map_type {D1 D2}.
+Arguments map_directive {D1 D2}.
